@@ -742,7 +742,7 @@ def gen_threads(rng, n):
 SIZES = {
     "quick": {"format_random": 150, "graph": 450, "fault_bases": 70, "threads": 120,
               "stress": [(2, 100), (3, 100), (4, 100)]},
-    "thorough": {"format_random": 2500, "graph": 9000, "fault_bases": 1200, "threads": 1500,
+    "thorough": {"format_random": 3000, "graph": 12000, "fault_bases": 1600, "threads": 2400,
                  "stress": [(2, 500), (3, 500), (4, 500), (8, 300)] * 3},
 }
 
